@@ -14,6 +14,7 @@
 //!                                      listener's queue is full.  Observation has |A:<underlying send attempts> (hook H2)
 //!   ops = comma list of E<hex> (emit) | F (flush) | l (listener down: Unix only) | L (listener up again)
 //! observation:  R:<per op: k<n> | e | - >|D:<datagrams received, hex, in order>|S:<bytes_sent>.<packets_sent>.<bytes_dropped>.<packets_dropped>
+//!               |N:<per op: datagrams received so far>   (not part of the model's observation)
 //!   (stats are read after the last op and before the sink is dropped; for q1 through the queuing sink)
 use crate::util::{hex, unhex};
 use cadence::ext::SocketStats;
@@ -119,6 +120,7 @@ impl AnySink {
 fn run_ops(sink: AnySink, recv: &mut Recv, ops: &str, queued: bool) -> String {
     let mut res = vec![];
     let mut got: Vec<Vec<u8>> = vec![];
+    let mut seen: Vec<String> = vec![];      // datagrams received so far, after each op
     for op in ops.split(',') {
         if op == "-" {
             continue;
@@ -167,6 +169,7 @@ fn run_ops(sink: AnySink, recv: &mut Recv, ops: &str, queued: bool) -> String {
             }
             _ => panic!("bad op {}", op),
         }
+        seen.push(got.len().to_string());
     }
     let st = sink.stats();
     drop(sink);
@@ -178,10 +181,11 @@ fn run_ops(sink: AnySink, recv: &mut Recv, ops: &str, queued: bool) -> String {
         let _ = std::fs::remove_file(&p);
     }
     format!(
-        "R:{}|D:{}|S:{}",
+        "R:{}|D:{}|S:{}|N:{}",
         res.join(","),
         got.iter().map(|d| hex(d)).collect::<Vec<_>>().join(";"),
-        stats_str(&st)
+        stats_str(&st),
+        seen.join(",")
     )
 }
 
